@@ -76,7 +76,9 @@ def gen_point(rng):
         r2 = rng.random()
         nc = nb + 1 if r2 < 0.6 else rng.choice([0, nb, nb + 2, nb + 4])
         counts = [rng.randint(0, 9) for _ in range(nc)]
-        return ('hist', counts, bounds2, rng.randint(0, 30), gen_half(rng))
+        # a sum that is not finite (two measurements of 1e308, one +Inf "no limit" reading, +Inf then -Inf): still a number
+        sum2 = rng.choice(['inf', '-inf', 'nan']) if rng.random() < 0.05 else gen_half(rng)
+        return ('hist', counts, bounds2, rng.randint(0, 30), sum2)
     if r < 0.85:
         return ('gauge', rng.choice([-3, 0, 1, 5, 61, 99]))
     return ('sum_nonmono', gen_half(rng))
@@ -94,7 +96,7 @@ def mk_metric(name, p):
         data = Gauge(data_points=[NumberDataPoint({}, 0, 1, p[1] / 2)])
     else:
         _, counts, bounds2, count, sum2 = p
-        data = Histogram(data_points=[HistogramDataPoint({}, 0, 1, count, sum2 / 2, list(counts),
+        data = Histogram(data_points=[HistogramDataPoint({}, 0, 1, count, float(sum2) if isinstance(sum2, str) else sum2 / 2, list(counts),
                                                          [float('inf') if b == INF2 else b / 2 for b in bounds2], 0.0, 0.0)],
                          aggregation_temporality=AggregationTemporality.CUMULATIVE)
     return Metric(name=name, description='', unit='', data=data)
@@ -213,7 +215,8 @@ def main():
         cases = []
         exporter, cycle, earlier = None, 0, []
         for i in range(N):
-            metrics = [(gen_name(rng), gen_point(rng)) for _ in range(rng.randint(0, 6))]
+            # a filter that declares many metrics (per-zone / per-class counters): dozens in one batch
+            metrics = [(gen_name(rng), gen_point(rng)) for _ in range(rng.randint(0, 6) if rng.random() < 0.97 else rng.randint(26, 60))]
             if exporter is not None and cycle < 3 and rng.random() < 0.6:
                 # one more cycle of the SAME exporter (it exports every few seconds for the life of the filter): what a cycle lets
                 # through depends on that cycle's metrics and the allow-list alone, never on what an earlier cycle exported.
@@ -250,6 +253,9 @@ def main():
             run.seen(('e', allow, metrics), nontrivial=bool(metrics))
             if allow is not None and any('[' in p for p in allow):
                 run.count('export:bracket-oracle-only')
+                continue
+            if any(m[1][0] == 'hist' and isinstance(m[1][4], str) for m in metrics):
+                run.count('export:nonfinite-sum-oracle-only')
                 continue
             lit = pairl(optl(allow, lambda a: listl(map(strl, a))),
                         listl(pairl(strl(n), point_lit(p)) for n, p in metrics))
@@ -311,6 +317,8 @@ def main():
                     else '(Some (Some %s))' % listl(map(strl, file_model)))
             rlit = pairl(flit, optl(env, strl))
             cases_r.append((rlit, sorted(allow), case))
+            if any(m[1][0] == 'hist' and isinstance(m[1][4], str) for m in metrics):
+                continue
             cases_d.append((pairl(rlit, listl(pairl(strl(n), point_lit(p)) for n, p in metrics)), canon_facet(facet), case))
         run.model_disagree('read_allowlist', IMPORTS, 'run_read',
                            'option (option (list str)) * option str', cases_r)
